@@ -167,12 +167,14 @@ def findMethod (M : Model) : Nat → Ty → String → Option (Ty × MethodInfo)
       | Option.none => Option.none
     | _ => Option.none
 
-/-- `resolve_type_vars(ret, obj_type, at_class)`: bindings of the class where the method is defined -/
+/-- `resolve_type_vars(ret, obj_type, at_class)`: the type-variable bindings are those of the class
+    where the method is defined (`findMethod` returns that class already instantiated along the
+    inheritance chain, so its arguments are the bindings) -/
 def resolveRet (defining : Ty) (M : Model) (ret : Ty) : Option Ty :=
   match defining with
   | .cls n args =>
     match findClass M n with
-    | some k => substTy (k.tparams.zip args) ret
+    | some k => if args.isEmpty then substTy [] ret else substTy (k.tparams.zip args) ret
     | Option.none => substTy [] ret
   | _ => substTy [] ret
 
